@@ -237,8 +237,12 @@ func runC07(c *Ctx) {
 						if cont, _ := container(cur); cont != nil {
 							fixInvalidUTF8(reflect.ValueOf(cont), 0)
 						}
-						if ev2, _ := p.runEncode(0, cur, arch); ev2.Ret.Err == 0 && ev2.Ret.Panic == 0 {
+						id++
+						if ev2, _ := p.runEncode(id, cur, arch); ev2.Ret.Err == 0 && ev2.Ret.Panic == 0 {
 							sig = "encode-fails:invalid UTF-8 string"
+							// this Encode directly follows a failed one: what it writes is validated like any other
+							ev2.Note = fmt.Sprintf("%s: Encode after the strings were replaced, right after a failed Encode (%s)", notes[i], ev2.Note)
+							calls = append(calls, ev2)
 						} else if sig == "encode-fails:invalid UTF-8 string" {
 							sig = "encode-fails:" + firstWords(ev.Ret.ErrText)
 						}
